@@ -95,8 +95,64 @@ def run(ctx):
             datas = [e for t, e in proj if t == 'data']
             if any(not fileproj.happens_before(dd, ff) for dd in datas for ff in fins):
                 ctx.violation(f'case-{i}-order.json', dict(argv=argv, calls=[(t, e['n'], e.get('x')) for t, e in proj]), 'C10: metadata applied before the last data write returned')
+        # ---- an extended attribute that cannot be written (EPERM for security.*, ENOSPC, E2BIG …) is tolerated, but it must not
+        # take the permission bits and the timestamps with it: finalisation continues with the remaining steps
+        E = scen.ERRNO
+        for i in range(12 if ctx.quick else 120):
+            driver = ['parfile', 'parblock'][i % 2]
+            mode = rng.choice([0o750, 0o4711, 0o600, 0o2775]); mtime = rng.choice([981173106_123456789, 1_600_000_000_000_000_001])
+            prior = rng.choice(['absent', 'existing'])
+            tree = [dict(p='S', k='dir', mode=0o755), dict(p='S/f', k='file', mode=mode, uid=0, gid=0, mtime=mtime, xattr={'user.a': b'1', 'user.b': b'22'}, data=[('seg', 3000, i + 1)], sync=True)]
+            if prior == 'existing':
+                tree += [dict(p='D', k='dir', mode=0o755), dict(p='D/f', k='file', mode=0o644, uid=0, gid=0, mtime=12345, xattr={}, data=[('seg', 77, 9)])]
+            for sub in ('S', 'D'):
+                import shutil; shutil.rmtree(os.path.join(root, sub), ignore_errors=True)
+            scen.materialise(root, tree)
+            en = rng.choice(['EPERM', 'ENOSPC', 'EACCES', 'EIO'])
+            plan = [f'fail fsetxattr D/f {rng.choice([1, 2])} {E[en]}']
+            argv = ['-r', '-T', '--driver', driver, '--workers', str(rng.choice([1, 4])), 'S', 'D']
+            r = scen.run_xcp(root, argv, umask=0o022, timeout=60, plan=plan, trace=True)
+            fired = any(e.get('inj') for e in r.trace)
+            ctx.count('xattr_fault.' + ('fired' if fired else 'not_fired')); ctx.count(f'xattr_fault.exit.{r.cls}')
+            ctx.case(('xattr-fault', i, driver, prior, tuple(plan)), fired)
+            if fired and r.cls == '0':
+                st = os.lstat(root + '/D/f')
+                bad = []
+                if st.st_mode & 0o7777 != mode: bad.append(f'mode {oct(st.st_mode & 0o7777)} != source {oct(mode)}')
+                if st.st_mtime_ns != mtime: bad.append(f'mtime {st.st_mtime_ns} != source {mtime}')
+                if bad:
+                    ctx.violation(f'xattr-fault-{i}.json', dict(argv=argv, plan=plan, prior=prior, oracle=bad), f'C10: after a failing fsetxattr ({en}) the run exits 0 but ' + '; '.join(bad))
+        # ---- with --no-perms every regular file keeps the DEFAULT mode (0666 & ~umask), whatever other threads are doing at the
+        # moment it is created (special files being recreated next to it, any interleaving)
+        for driver in ('parfile', 'parblock'):
+            for sub in ('S', 'D'):
+                import shutil; shutil.rmtree(os.path.join(root, sub), ignore_errors=True)
+            tree = [dict(p='S', k='dir', mode=0o755)]
+            for j in range(6):
+                tree.append(dict(p=f'S/d{j}', k='dir', mode=0o755))
+                tree.append(dict(p=f'S/d{j}/fifo', k='fifo', mode=0o600))
+                for k in range(25 if ctx.quick else 80):
+                    tree.append(dict(p=f'S/d{j}/f{k}', k='file', mode=0o600, uid=0, gid=0, mtime=10 ** 18, xattr={}, data=[('seg', 10, j * 100 + k + 1)]))
+            scen.materialise(root, tree)
+            argv = ['-r', '-T', '--no-perms', '--driver', driver, '--workers', '4', 'S', 'D']
+            for plan in ([], ['stall mknodat 300000'], ['stall umask 300000', 'stall mknodat 100000']):
+                shutil.rmtree(os.path.join(root, 'D'), ignore_errors=True)
+                r = scen.run_xcp(root, argv, umask=0o022, timeout=120, plan=plan or None)
+                ctx.count(f'no_perms_tree.exit.{r.cls}'); ctx.case(('no-perms-tree', driver, tuple(plan)), True)
+                wrong = []
+                for dp, dn, fn in os.walk(root + '/D'):
+                    for f in fn:
+                        st = os.lstat(os.path.join(dp, f))
+                        import stat as _st
+                        if _st.S_ISREG(st.st_mode) and st.st_mode & 0o7777 != 0o644:
+                            wrong.append((os.path.join(dp, f)[len(root):], oct(st.st_mode & 0o7777)))
+                if r.cls != '0':
+                    ctx.violation(f'no-perms-tree-{driver}-exit.json', dict(argv=argv, plan=plan, stderr=r.stderr[-300:]), 'copy of a tree with FIFOs under --no-perms failed', no_input=True)
+                elif wrong:
+                    ctx.violation(f'no-perms-tree-{driver}.json', dict(argv=argv, plan=plan, umask='0o22', wrong=wrong[:10], count=len(wrong)),
+                                  f'C10: --no-perms: {len(wrong)} regular files do not have the default mode 0644 (umask 022), e.g. {wrong[0]} ({driver}, plan {plan})')
     ctx.cov['rule'] = ('mode = special bits {none, suid, sgid, sticky, combos} | rwx sample over 0..0777; mtime past/future/sub-second/1ns; 0-3 user xattrs; uid/gid pairs; '
-                       'all combinations of --ownership/--no-perms/--no-timestamps/--fsync; drivers; workers; block sizes giving 1..many blocks; fresh or existing destination; umask. '
+                       'all combinations of --ownership/--no-perms/--no-timestamps/--fsync; drivers; workers; block sizes giving 1..many blocks; fresh or existing destination; umask; a failing fsetxattr (must not skip chmod/utimens); --no-perms over a tree with FIFOs under stalled mknodat. '
                        'distinct = distinct parameter tuple')
     ctx.assumptions += ['runs as root on ext4 (chown permitted; CAP_FSETID keeps set-id bits on write)', "Linux' chown clears S_ISUID, and S_ISGID when S_IXGRP is set"]
 
